@@ -254,7 +254,9 @@ def describe_count(count):
 
 
 def shift_count_fits(token, count):
-    if abs(count) <= MAX_SHIFT_COUNT:
+    # Only shifts to the left make numbers grow: 'count' is the number of
+    # places to the left, negative for a shift to the right
+    if count <= MAX_SHIFT_COUNT:
         return True
     reports.error(
         "arithmetic-error",
@@ -273,7 +275,7 @@ def lshift(token, a: int, b: int) -> int:
     else:
         reports.error(
             "arithmetic-error",
-            (token.ctx_start, token.ctx_end, f"Negative left shift: '<< {b}'. If you want this to be interpreted as '>> {-b}',\neither use >> if you know the right hand side is always non-positive, or _ if you don't.")
+            (token.ctx_start, token.ctx_end, f"Negative left shift: '<< {describe_count(b)}'. If you want this to be interpreted as '>> {describe_count(-b)}',\neither use >> if you know the right hand side is always non-positive, or _ if you don't.")
         )
         return wait(a) >> (-b)
 
@@ -281,7 +283,7 @@ def lshift(token, a: int, b: int) -> int:
 @operator("x >> x", precedence=5, associativity="left", awaited=False, pure=False, token=True)
 def rshift(token, a: int, b: int) -> int:
     b = wait(b)
-    if not shift_count_fits(token, b):
+    if not shift_count_fits(token, -b):
         return 0
     if b == 0:
         return a
@@ -291,7 +293,7 @@ def rshift(token, a: int, b: int) -> int:
         assert b < 0
         reports.error(
             "arithmetic-error",
-            (token.ctx_start, token.ctx_end, f"Negative right shift: '>> {b}'. If you want this to be interpreted as '<< {-b}',\neither use << if you know the right hand side is always non-positive, or _ (with an inverted operand) if you don't.")
+            (token.ctx_start, token.ctx_end, f"Negative right shift: '>> {describe_count(b)}'. If you want this to be interpreted as '<< {describe_count(-b)}',\neither use << if you know the right hand side is always non-positive, or _ (with an inverted operand) if you don't.")
         )
         return a * 2 ** (-b)
 
